@@ -4,9 +4,6 @@ Lib/Base.vos Lib/Base.vok Lib/Base.required_vos: Lib/Base.v
 Lib/Sort.vo Lib/Sort.glob Lib/Sort.v.beautified Lib/Sort.required_vo: Lib/Sort.v 
 Lib/Sort.vio: Lib/Sort.v 
 Lib/Sort.vos Lib/Sort.vok Lib/Sort.required_vos: Lib/Sort.v 
-Gen/Tables.vo Gen/Tables.glob Gen/Tables.v.beautified Gen/Tables.required_vo: Gen/Tables.v 
-Gen/Tables.vio: Gen/Tables.v 
-Gen/Tables.vos Gen/Tables.vok Gen/Tables.required_vos: Gen/Tables.v 
 Model/Suites.vo Model/Suites.glob Model/Suites.v.beautified Model/Suites.required_vo: Model/Suites.v Lib/Base.vo Lib/Sort.vo
 Model/Suites.vio: Model/Suites.v Lib/Base.vio Lib/Sort.vio
 Model/Suites.vos Model/Suites.vok Model/Suites.required_vos: Model/Suites.v Lib/Base.vos Lib/Sort.vos
